@@ -1,6 +1,7 @@
 import FxVerif.Model.C12
 import FxVerif.Model.C12Sig
 import FxVerif.Model.C12Env
+import FxVerif.Model.C12Genesis
 import FxVerif.Model.Util
 /-! line-protocol driver for the C12 model: `lake env lean --run Driver/C12.lean < ops.txt`
 
@@ -13,6 +14,8 @@ ops (numbers decimal, addresses / byte strings hex, `-` = empty):
 * `build <bcall|batch> <stored counter | -> <fx> <last> <ext> <avgBlock> <avgExt> <timeoutParam> <eventNonce>` — the numeric
   fields `BuildOutgoingBridgeCall` / `BuildOutgoingTxBatch` assign (field sources regenerated): `<nonce> <timeout> <eventNonce|->`
   or `err:timeout` (the `<= 0` guard)
+* `genesis <c>` — the confirmations stored after ExportGenesis → wipe → InitGenesis (`roundTripConfirms`: regenerated export lists
+  and import comparison): `oset=<n> batch=<n> bcall=<n> of=<all stored before>` (the state itself is not changed)
 * `curoset <latest nonce> <p1,p2,…>` — `GetCurrentOracleSet`: `<nonce> <normalised powers, ascending>`
 * `oset <c> <nonce> <addr:power,...>` / `batch <c> <tokenText> <tokenHex> <nonce> <timeout> <feeReceive> <amount:dest:fee,...>` /
   `bcall <c> <nonce> <sender> <refund> <to> <data> <memo> <timeout> <eventNonce> <contract:amount,...>` — store the object;
@@ -172,6 +175,12 @@ def stepLine (s : St) (line : String) : St × String :=
         else (s, toString n ++ " " ++ toString t ++ " " ++ (if fEvn == "" then "-" else match ev fEvn with | some x => toString x | none => "?"))
       | _, _ => (s, "modelgap")
     | _, _, _, _, _, _, _ => (s, "bad-op")
+  | ["genesis", c] =>
+    withChain s c fun ch =>
+      let rt := roundTripConfirms ch.st
+      let n := fun (k : String) => (rt.filter (·.key.kind == k)).length
+      (ch, "oset=" ++ toString (n "oracleSet") ++ " batch=" ++ toString (n "batch") ++ " bcall=" ++ toString (n "bridgeCall") ++
+        " of=" ++ toString ch.st.confirms.length)
   | ["curoset", latest, ps] =>
     match latest.toNat?, (if ps == "-" then some [] else (ps.splitOn ",").mapM (·.toNat?)) with
     | some l, some ps =>
